@@ -84,8 +84,18 @@ pub fn run_spec(spec: &SeqSpec, ctx: &Ctx) -> Finish {
     ev.assumptions.push(
         "sequential histories only; allocators of at most 4 trees; the reference model is a per-frame ownership map written from the property statements".into(),
     );
+    // thorough tier: the full per-frame / per-block scans run after EVERY step of every fourth
+    // case (by case hash), not only after failing calls and at the end
+    let mut deep = spec.oracles.clone();
+    deep.scan_every_step = true;
+    crate::install_fault_handler(ctx);
+    let prop = ctx.prop.clone();
     let test = |case: &SeqCase| {
-        let out = run_seq(case, &spec.oracles, false);
+        let or = if thorough && hash_of(case) % 4 == 0 { &deep } else { &spec.oracles };
+        let doc = crate::fault_doc(&prop, "seq", case);
+        crate::crash::set_current(&doc);
+        let out = run_seq(case, or, false);
+        crate::crash::clear_current();
         verdict_for(spec, case, &out)
     };
     // 1. bounded-exhaustive enumeration
